@@ -493,7 +493,7 @@ def f_relx():
     add("groups contain each other", cmd("p", [arg("a", "a", action="SetTrue"), arg("b", "b", action="SetTrue")],
                                          groups=[group("g1", ["a", "g2"]), group("g2", ["b", "g1"])]), values=())
     # an argument filled from its environment variable is no occurrence: it neither overrides nor is overridden
-    add("env + overrides", cmd("p", [arg("a", "a", "aa", env="e", overrides=["b"]), arg("b", "b", "bb", defaults=["d"]), arg("c", "c", "cc", env="e2", action="SetTrue")]),
+    add("env + overrides", cmd("p", [arg("a", "a", "aa", env="e", overrides=["b"]), arg("b", "b", "bb", defaults=["d"]), arg("c", "c", "cc", env="true", action="SetTrue")]),
         values=("v",))
     add("non-utf8 env", cmd("p", [arg("o", "o", "os", env=b"\xffdir", vp=vp_kind("os"), defaults=["d"]), arg("s", "s", "str", env=b"x\xff", defaults=["d"]),
                                   arg("f", "f", action="SetTrue")]), values=("v",))
